@@ -445,6 +445,26 @@ func checkConversions(c *core.Ctx, pkg *packages.Package) {
 			if len(f.params) == 1 {
 				tpar = f.params[0]
 			}
+			// 64-bit integer sources: float64 holds 53 bits, so a conversion that reads the value with a floating-point
+			// getter changes every value beyond 2^53 and leaves out-of-range narrowing to the float conversion instead of
+			// Go's integer conversion
+			if T == "Int" || T == "Int64" || T == "ConstInt" || T == "ConstInt64" {
+				var fpos token.Pos
+				ast.Inspect(fd.Body, func(x ast.Node) bool {
+					if ce, ok := x.(*ast.CallExpr); ok {
+						if fn := core.Callee(info, ce); fn != nil && strings.HasPrefix(fn.Name(), "GetFloat") {
+							if sel, ok := ast.Unparen(ce.Fun).(*ast.SelectorExpr); ok {
+								if id, ok := ast.Unparen(sel.X).(*ast.Ident); ok && info.Uses[id] == f.recv {
+									fpos = ce.Pos()
+								}
+							}
+						}
+					}
+					return true
+				})
+				c.Check(fpos == token.NoPos, "C02.R4", cons, "64-bit integer value is not converted through a floating-point getter", fpos,
+					"the conversion reads the 64-bit integer with a floating-point getter: values beyond 2^53 are rounded and out-of-range narrowing follows the float conversion, not Go's integer conversion rules")
+			}
 			// constructed objects: idents bound to New*/Null*Scalar(t, ...)
 			constructed := map[types.Object]bool{}
 			isCtor := func(e ast.Expr) bool {
